@@ -638,6 +638,7 @@ fn main() {
     let stdout = std::io::stdout();
     let mut regs: Regs = HashMap::new();
     let mut par_threads: usize = 0;
+    let mut par_reps: usize = 1;
     let mut par_lines: Vec<String> = Vec::new();
     for line in input.lines() {
         let line = match line {
@@ -658,14 +659,20 @@ fn main() {
         // `!par N` … `!endpar`: the enclosed lines are executed by N threads at once, each on its own copy of the register file,
         // all released together; one answer per line is printed: the common answer, or `par-mismatch …` if the threads disagree
         if let Some(n) = line.strip_prefix("!par ") {
-            par_threads = n.trim().parse().unwrap_or(0);
+            let mut it = n.split_ascii_whitespace();
+            par_threads = it.next().and_then(|v| v.parse().ok()).unwrap_or(0);
+            par_reps = it.next().and_then(|v| v.parse().ok()).unwrap_or(1);
             par_lines.clear();
             continue;
         }
         if line == "!endpar" {
             let n = par_threads.max(1);
+            // the block is executed `par_reps` times (fresh threads each time); the first repetition in which the threads
+            // disagree is the one reported
+            let mut results: Vec<(Vec<String>, Regs)> = Vec::new();
+            for _rep in 0..par_reps.max(1) {
             let bar = std::sync::Arc::new(std::sync::Barrier::new(n));
-            let results: Vec<(Vec<String>, Regs)> = std::thread::scope(|sc| {
+            results = std::thread::scope(|sc| {
                 let hs: Vec<_> = (0..n)
                     .enumerate()
                     .map(|(t, _)| {
@@ -695,6 +702,11 @@ fn main() {
                     .collect();
                 hs.into_iter().map(|h| h.join().unwrap_or_else(|_| (vec![], HashMap::new()))).collect()
             });
+            let disagree = (0..par_lines.len()).any(|i| results.iter().any(|(v, _)| v.get(i) != results[0].0.get(i)));
+            if disagree {
+                break;
+            }
+            }
             let mut o = stdout.lock();
             for i in 0..par_lines.len() {
                 let first = results[0].0.get(i).cloned().unwrap_or_else(|| "died".into());
